@@ -60,7 +60,8 @@ const (
 	FeatMdnsRequests   = 8192  // C17: the hub asks for the known entries (RequestMdnsEntries) while resolver events come in
 	FeatLatePairing    = 16384 // C09 hub: a first connection is lost while the service is not yet trusted, pairing and a second connection follow
 	FeatRelayAdversary = 32768 // C02 outbound: the adversary relays the first connection to the genuine device, cuts it and answers the retry itself
-	FeatAll            = 65535
+	FeatNetVariety     = 65536 // short reads (segments split), duplicated mDNS items, write-stall disturbances
+	FeatAll            = 131071
 )
 
 // SetFeatForRig forces the dual-stack options of the next hub rig (workloads
@@ -376,6 +377,10 @@ func runInBubble(t *testing.T, sc *Scenario, spec RunSpec, res *RunResult) {
 	x := &Ctx{S: s, Spec: spec, T: t, probes: map[string]int{}}
 	x.Net = simnet.New(s)
 	x.Net.YieldOnWrite = spec.Feat&FeatNetWriteYield != 0
+	if spec.Feat&FeatNetVariety != 0 && sc.Parallel == 0 {
+		// swarm: in a fifth of the runs every read returns at most half of what is there
+		x.Net.ShortReads = s.Chance("short-reads", 0.2)
+	}
 	s.Install()
 	x.Net.Install()
 	defer func() {
